@@ -14,7 +14,8 @@ RULE = ("wallet sources (mnemonic+passphrase, seed hex, xprv/tprv) x networks x 
         "thorough = the full product; plus histories of generate/json/wasabi_json calls on ONE wallet object (depth 2, thorough 3). "
         "Oracle: the complete expected dictionary from the reference models (paths, SLIP-132 account keys, one row per index in order "
         "with address/SEC/WIF, MASTER echo, BIP85 block), JSON round trip, Wasabi export, and row-internal consistency (WIF -> key -> "
-        "SEC -> address) checked without using the path. non-trivial = dictionary compared leaf by leaf; distinct by construction")
+        "SEC -> address) checked without using the path. non-trivial = dictionary compared leaf by leaf; distinct by construction"
+        "; sources include entropy hex with and without passphrase; additional fields of a mapping are not judged")
 
 MN = "abandon abandon abandon abandon abandon abandon abandon abandon abandon abandon abandon about"
 SOURCES = [
